@@ -1303,6 +1303,13 @@ R('presorted-merge-short', 2,
   'transform.setops', stream=FIL0, build=(1,), profile='sorted', rect=True)
 RECIPES['presorted-merge-short'].stops_with = 1
 RECIPES['presorted-merge-short'].stackable = False
+# groups whose size grows with the table (4 groups whatever the length): a
+# group mapper that reads its group lazily streams, one row in - one row out
+R('presorted-biggroups', 1,
+  [lambda e, w: e.rowgroupmap(w.s[0], 'a', f_groupmapper, header=['k', 'n'],
+                              presorted=True)],
+  'transform.maps', stream=('map', 2), profile='biggroups')
+RECIPES['presorted-biggroups'].stackable = False
 # (presorted accepted, but the whole input is read before the first row)
 R('presorted-other', 1,
   [lambda e, w: e.pivot(w.s[0], 'a', 'd', 'c', sum, presorted=True),
